@@ -365,6 +365,8 @@ func genEvalCase(t *rapid.T, scheme string, only ...string) EvalCase {
 			c.B.Kind = o.kinds[rapid.IntRange(0, len(o.kinds)-1).Draw(t, "bKindSpecial")]
 		}
 		c.B.Val = rapid.IntRange(0, 7).Draw(t, "bVal")
+		c.B.Prec = rapid.IntRange(0, 3).Draw(t, "bPrec")
+		c.Twice = rapid.Bool().Draw(t, "twice")
 		c.B.Len = []int{0, 1, n / 2, 3}[rapid.IntRange(0, 3).Draw(t, "bLen")]
 		if c.B.Kind == "lt" {
 			// the shape of the transformation is a function of the method arguments (Galois keys are generated from them)
